@@ -47,7 +47,7 @@ PROPS = {
         rule="all ordered pairs (T, U): T ranges over the roots of universe A (bytes = real serialization of a generated value), "
              "U over A plus the mutant universe M (every near-miss mutant of every user definition under the same type name, "
              "structural twins, layout-only mutants wrapped in every constructor); oracle = structural signatures of the model; "
-             "a pair is non-trivial when sig(T) != sig(U) or T, U are distinct twins; exhaustive over the universe",
+             "a pair is non-trivial (near miss) when it is a designated mutant pair, a pair of structural twins, or T and U have the same outermost constructor / user type name; exhaustive over the universe",
         floors=fl({'pairs': 500000, 'mutant_kinds': 12}, {'pairs': 500000}),
         assumptions=COMMON_ASSUME + ["hash collisions of xxh3-64 are assumed not to occur among ~1500 types"]),
     'C05': dict(
@@ -91,7 +91,7 @@ PROPS = {
         floors=fl({'failed_loads': 200, 'probe_programs': 20}, {'failed_loads': 2000}),
         assumptions=COMMON_ASSUME + ["'all safe client programs' is represented by a finite probe family per access path"]),
     'C10': dict(
-        scale={'quick': 4, 'thorough': 8},
+        scale={'quick': 6, 'thorough': 10},
         level='fault_enumeration', flavours=fl(['debug', 'fastrel'], ['debug', 'fastrel']), exhaustive=True,
         rule="for every root x value: all 232 single-bit flips of the 29 fixed header bytes, the byte-reversed cookie, minor versions "
              "{0,1,2,3,255,256,257,0x7fff,0x8000,65534,65535} (all 65536 for two roots per shard in the thorough tier), major values; "
@@ -100,7 +100,7 @@ PROPS = {
         floors=fl({'bit_flips': 150000, 'errors_seen': 7}, {'bit_flips': 600000}),
         assumptions=COMMON_ASSUME),
     'C11': dict(
-        scale={'quick': 4, 'thorough': 8},
+        scale={'quick': 6, 'thorough': 10},
         level='fault_enumeration', flavours=fl(['debug', 'fastrel', 'asan'], ['debug', 'fastrel', 'asan', 'valgrind']), exhaustive=True,
         rule="every cut point k in [0, len) of every stream (root x values): deserialize_full(prefix) must be ReadError; "
              "deserialize_eps of a heap block of exactly k bytes must fail (error or bounds panic) - any over-read is an ASan/valgrind "
@@ -108,7 +108,7 @@ PROPS = {
         floors=fl({'cut_points': 100000, 'cut_regions': 6}, {'cut_points': 400000}),
         assumptions=COMMON_ASSUME),
     'C12': dict(
-        scale={'quick': 4, 'thorough': 8}, miri={'quick': (64, 16, 1), 'thorough': (32, 16, 1)},
+        scale={'quick': 6, 'thorough': 10}, miri={'quick': (64, 16, 1), 'thorough': (32, 16, 1)},
         level='exploration', flavours=fl(['debug', 'fastrel', 'asan'], ['debug', 'fastrel', 'asan', 'miri']), exhaustive=True,
         rule="every root x values x all 128 placements (stream copied to base+r, base 128-aligned, block of exactly r+len bytes): "
              "Ok iff every block encountered lands on a multiple of its unit (model), else AlignmentError; on Ok value equal and every "
@@ -116,7 +116,7 @@ PROPS = {
         floors=fl({'evaluations': 300000, 'refused_with_alignment_error': 50000}, {'evaluations': 1000000}),
         assumptions=COMMON_ASSUME),
     'C13': dict(
-        scale={'quick': 4, 'thorough': 8},
+        scale={'quick': 6, 'thorough': 10},
         level='fault_enumeration', flavours=fl(['debug', 'fastrel', 'asan'], ['debug', 'fastrel', 'asan', 'valgrind']), exhaustive=True,
         rule="every root x values and every borrowed source (&[T], SerIter, Holder<&[T]>, Holder<SerIter>, nested) x 37 element types: "
              "writer failing at every byte position k in [0,len] (error and Ok(0)), flush failure, 7 short-write / Interrupted "
@@ -125,14 +125,14 @@ PROPS = {
         floors=fl({'fault_positions': 300000, 'seq_fault_positions': 50000, 'borrowed_sources': 5}, {'fault_positions': 1000000}),
         assumptions=COMMON_ASSUME + ["protected-block monitor: a dealloc of a registered block is recorded and skipped by the tracking allocator"]),
     'C14': dict(
-        scale={'quick': 4, 'thorough': 8}, miri={'quick': (64, 16, 1), 'thorough': (32, 16, 1)},
+        scale={'quick': 6, 'thorough': 10}, miri={'quick': (64, 16, 1), 'thorough': (32, 16, 1)},
         level='fault_enumeration', flavours=fl(['debug', 'fastrel', 'asan'], ['debug', 'fastrel', 'asan', 'miri']), exhaustive=True,
         rule="every root x values: 8 chunking patterns (1/2/7-byte, prime cycle, random, Interrupted interleavings) must give the same "
              "value; reader failing at every k in [0,len) (plain and chunked) must give ReadError without panic; distinct = (root, value shape)",
         floors=fl({'fault_positions': 150000, 'chunk_patterns': 15000}, {'fault_positions': 600000}),
         assumptions=COMMON_ASSUME + ["leaks of partially built arrays on failure are by design and not judged"]),
     'C15': dict(
-        scale={'quick': 4, 'thorough': 8},
+        scale={'quick': 6, 'thorough': 10},
         level='fault_enumeration', flavours=fl(['debug', 'fastrel'], ['debug', 'fastrel', 'asan']), exhaustive=True,
         rule="every tag occurrence in every stream (root x values; all variants forced): one-byte tags overwritten with all foreign "
              "values of 0..=255, pointer-width variant indices with n, n+1, n+2, 255, 256, 2^32-1, 2^32, 2^63, 2^64-2, 2^64-1; both "
